@@ -64,14 +64,15 @@ theorem forkPoint_eq (s : TM) (p : Point) : forkPoint s p = s.withEvents (events
 @[simp] theorem withEvents_nextEdge (s : TM) (evs) : (s.withEvents evs).nextEdge = s.nextEdge := rfl
 @[simp] theorem withEvents_log (s : TM) (evs) : (s.withEvents evs).log = s.log ++ evs := rfl
 
-/-- The recording function of the sink under from-node #`i` of task `t`. -/
-def rec (t : String) (i : Nat) (ep : Edge × Point) : Option Nat :=
-  if ep.1.task.id == t && sinkGets ep.1.task i ep.2 then some ep.2.id else none
+/-- The recording function of the sink under from-node #`i` of task `t`, seen through `g`. -/
+def rec {β : Type} (g : TaskDef → Nat → Point → β) (t : String) (i : Nat) (ep : Edge × Point) : Option β :=
+  if ep.1.task.id == t && sinkGets ep.1.task i ep.2 then some (g ep.1.task i ep.2) else none
 
-theorem delivered_eq (s : TM) (t : String) (i : Nat) : s.delivered t i = s.log.filterMap (rec t i) := rfl
+theorem delivered_eq {β : Type} (g : TaskDef → Nat → Point → β) (s : TM) (t : String) (i : Nat) :
+    s.deliveredWith g t i = s.log.filterMap (rec g t i) := rfl
 
-theorem delivered_withEvents (s : TM) (evs) (t : String) (i : Nat) :
-    (s.withEvents evs).delivered t i = s.delivered t i ++ evs.filterMap (rec t i) := by
+theorem delivered_withEvents {β : Type} (g : TaskDef → Nat → Point → β) (s : TM) (evs) (t : String) (i : Nat) :
+    (s.withEvents evs).deliveredWith g t i = s.deliveredWith g t i ++ evs.filterMap (rec g t i) := by
   simp [delivered_eq, List.filterMap_append]
 
 /-! ### the table invariant -/
